@@ -27,7 +27,8 @@ func (b *Base85Encoder) Code() byte {
 func (b *Base85Encoder) Encode(data []byte) []byte {
 	l := ascii85.MaxEncodedLen(len(data))
 	dst := make([]byte, l)
-	ascii85.Encode(dst, data)
+	// MaxEncodedLen is an upper bound only: keep what was actually written
+	dst = dst[:ascii85.Encode(dst, data)]
 	for k, b := range dst {
 		if b == '.' {
 			dst[k] = 'v'
@@ -53,7 +54,9 @@ func (b *Base85Encoder) Decode(data []byte) ([]byte, error) {
 		}
 	}
 
-	dst := make([]byte, len(source))
+	// ascii85.Decode stops (without an error) as soon as fewer than 4 bytes of room are left, and a
+	// single 'z' expands to four zero bytes: size the buffer for the worst case
+	dst := make([]byte, 4*len(source)+4)
 	ndst, _, err := ascii85.Decode(dst, source, true)
 	if err != nil {
 		err = errors.WithStack(err)
